@@ -2530,6 +2530,38 @@ func init() {
 				c.fail(shortName(h.At.Parent())+": source text "+h.What, p.instrPos(h.At), "Markdown source text is "+h.What+" ("+shortWhy(h.Why)+"): a character reference in it is escaped a second time (`&amp;` shows as `&amp;amp;`), numeric and named references stay as written, and `\\*` keeps its backslash")
 			}
 			c.ok("flows", "-", "every destination, title and text segment passes a resolving function before it is used")
+			// the info string of a fenced code block is text as well (`a&amp;b`, `a\*b`), although the block's
+			// content is verbatim: followed on its own, without the exemption of the code renderers
+			t2 := newTaint(p)
+			t2.Scope = t.Scope
+			t2.FollowField = t.FollowField
+			t2.Sanitizer = t.Sanitizer
+			t2.Sink = func(u ssa.Instruction, v ssa.Value) string {
+				if x, ok := u.(*ssa.MapUpdate); ok && (x.Value == v || unwrapIface(x.Value) == v) {
+					k, _ := constString(unwrapIface(x.Key))
+					return "handed to a template as `" + k + "` unresolved"
+				}
+				return ""
+			}
+			langs := 0
+			for _, fn := range p.Funcs {
+				if pk := funcPkg(fn); pk == nil || pk.Path() != markdownPkg {
+					continue
+				}
+				for _, site := range callsIn(fn) {
+					if cv, ok := site.(*ssa.Call); ok && strings.HasSuffix(calleeName(site.Common()), "ast.FencedCodeBlock).Language") {
+						langs++
+						t2.Seed(cv, "info string read at "+p.instrPos(site))
+					}
+				}
+			}
+			t2.Run()
+			if langs > 0 {
+				c.ok("info strings", "-", fmt.Sprintf("%d reads of a fenced code block's info string followed", langs))
+			}
+			for _, h := range t2.Hits {
+				c.fail(shortName(h.At.Parent())+": info string "+h.What, p.instrPos(h.At), "the info string of a fenced code block is "+h.What+" ("+shortWhy(h.Why)+"): ```a&amp;b gets class `language-a&amp;amp;b` and ```a\\*b keeps its backslash, where the reference renderer writes language-a&amp;b and language-a*b")
+			}
 		},
 	})
 }
